@@ -78,6 +78,64 @@ def scalars_case(ctx, idx, rng):
             _close(ctx, 'operator_density_average', ptn.operator_density_average(rho, H), np.trace(mH @ mr), ts(H) * ts(rho), detail)
 
 
+def _ldexp(z, k):
+    z = complex(z)
+    return complex(np.ldexp(z.real, k), np.ldexp(z.imag, k))
+
+
+def _scale_sites(T, ks):
+    for i, k in enumerate(ks):
+        if k:
+            a = T.A[i]
+            T.A[i] = (np.ldexp(a.real, k) + 1j * np.ldexp(a.imag, k)) if np.iscomplexobj(a) else np.ldexp(a.astype(float), k)
+
+
+def extreme_scale_case(ctx, idx, rng):
+    """Site tensors scaled by exact powers of two (2**-420 .. 2**420 per site; compensating pairs, everything tiny, everything huge) such that every
+    partial contraction from the right stays representable: the scalars must equal the unscaled dense values times the exactly known power of two."""
+    L, d, qd, H, psi, chi, src, herm = _setup(rng)
+    for T in (psi, chi, H):
+        T.A = [np.asarray(a, dtype=complex if np.iscomplexobj(a) else float) for a in T.A]
+    vp, vc, mH = refs.dense_state(psi.A), refs.dense_state(chi.A), refs.dense_operator(H.A)
+    ts = lambda T: float(np.prod([max(np.linalg.norm(a), 1e-300) for a in T.A]))
+    np_, nc, nH = ts(psi), ts(chi), ts(H)
+    EXP = [0, 0, 140, -140, 280, -280, 420, -420]
+
+    def draw(limit):
+        for _ in range(200):
+            k = [int(rng.choice(EXP)) for _ in range(L)]
+            if np.all(np.abs(np.cumsum(k[::-1])) <= limit) and any(k):
+                return k
+        k = [0] * L
+        k[int(rng.integers(0, L))] = int(rng.choice([-420, 420]))
+        return k
+    kp = draw(450)              # norm / operator_average square the ket: suffix sums of 2 k within +-900
+    kc = draw(450)
+    if np.any(np.abs(np.cumsum((np.array(kp) + np.array(kc))[::-1])) > 900):
+        kc = [0] * L
+    kh = draw(120) if rng.random() < 0.3 else [0] * L
+    if np.any(np.abs(np.cumsum((2 * np.array(kp) + np.array(kh))[::-1])) > 900) or np.any(np.abs(np.cumsum((np.array(kp) + np.array(kc) + np.array(kh))[::-1])) > 900):
+        kh = [0] * L
+    _scale_sites(psi, kp); _scale_sites(chi, kc); _scale_sites(H, kh)
+    Kp, Kc, Kh = int(sum(kp)), int(sum(kc)), int(sum(kh))
+    cls = 'compensated' if Kp == 0 else ('tiny' if Kp < 0 else 'huge')
+    ctx.case(('extreme-scales', f'L{L}', f'd{d}', src, cls, 'H-scaled' if any(kh) else 'H-plain', 'bra-scaled' if any(kc) else 'bra-plain'),
+             sample={'binary_exponents_ket': kp, 'binary_exponents_bra': kc, 'binary_exponents_H': kh, 'qd': qd})
+    detail = {'qd': qd, 'binary_exponents_ket': kp, 'binary_exponents_bra': kc, 'binary_exponents_H': kh, 'psi(unscaled dense)': vp, 'qD_psi': psi.qD, 'qD_chi': chi.qD}
+
+    def cmp(mon, got, K, want, scale):
+        g = complex(got)
+        if not ctx.ok(mon + '.finite', bool(np.isfinite(g.real) and np.isfinite(g.imag)), f'{mon}: {got!r} for tensors scaled by 2**{kp} (ket)', detail):
+            return
+        _close(ctx, mon, _ldexp(g, -K), want, scale, detail)
+    with monitor.write_protected(psi, chi, H):
+        cmp('vdot[extreme-scales]', ptn.vdot(chi, psi), Kp + Kc, np.vdot(vc, vp), np_ * nc)
+        cmp('vdot.swap[extreme-scales]', ptn.vdot(psi, chi), Kp + Kc, np.vdot(vp, vc), np_ * nc)
+        cmp('norm[extreme-scales]', ptn.norm(psi), Kp, float(np.linalg.norm(vp)), np_)
+        cmp('operator_average[extreme-scales]', ptn.operator_average(psi, H), 2 * Kp + Kh, np.vdot(vp, mH @ vp), nH * np_ ** 2)
+        cmp('operator_inner_product[extreme-scales]', ptn.operator_inner_product(chi, H, psi), Kp + Kc + Kh, np.vdot(vc, mH @ vp), nH * np_ * nc)
+
+
 def steps_case(ctx, idx, rng):
     import pytenet.operation as po
     d = int(rng.integers(1, 4))
@@ -215,6 +273,7 @@ SPEC = {
                  'projection.zero-site', 'heff.hermitian[one-site]', 'heff.hermitian[zero-site]'],
     'workloads': [
         Workload('scalars', scalars_case, quick=500, thorough=64000),
+        Workload('extreme-scales', extreme_scale_case, quick=300, thorough=30000),
         Workload('steps', steps_case, quick=300, thorough=36000),
         Workload('projection', projection_case, quick=250, thorough=24000),
     ],
